@@ -352,6 +352,50 @@ def run_partition(ck, mons, seed, name, k, dpd, dt, noise=False):
     return n
 
 
+def run_defaults_beside_explicit_timers(ck, seed, i):
+    """A daemon with TWO connections: the first one sets `dpd` and `lifetime` itself (very short or very long), the second one leaves both to the documented defaults
+    (dpd 60 s, lifetime 15 min). The second connection's peer vanishes: the daemon probes it once 60 s have passed without anything authentic from it - not earlier, not
+    much later - and every kernel SA shared with it is gone within 60 s plus the retransmission budget, whatever the neighbouring connection says."""
+    first = [dict(dpd=3600, lifetime=86400), dict(dpd=5, lifetime=40), dict(dpd=100000), dict(lifetime=30), dict(dpd=7)][i % 5]
+    dt = (1.0, 0.5, 2.0)[(i // 5) % 3]
+
+    def edit(hub_conf):
+        names = list(hub_conf)
+        hub_conf[names[0]].pop('dpd', None)
+        hub_conf[names[0]].pop('lifetime', None)
+        hub_conf[names[0]].update(first)
+        hub_conf[names[1]].pop('dpd', None)
+        hub_conf[names[1]].pop('lifetime', None)
+    sim, hub, (p1, p2) = S.make_star(seed, peers=2, hub_edit=edit, dpd=100000, lifetime=100000)
+    sim.case = {'family': 'defaults-beside-explicit-timers', 'first_connection_sets': first, 'tick': dt, 'actions': []}
+    P2A = str(p2.addrs[0])
+    sim.acquire(p2, 0)
+    sim.drain()
+    if not any(x.state.name == 'ESTABLISHED' and str(x.peer_addr) == P2A for x in hub.ctl.ike_sas) or not hub.kernel.sad:
+        ck.count('defaults.setup_failed')
+        return
+    T = sim.clock.t
+    probe_at = gone_at = None
+    bound = 60 + monitors.retransmission_budget() + 3 * dt
+    while sim.clock.t < T + bound + 2 * dt:
+        sim.clock.advance(dt)
+        hub.step('tick')
+        if probe_at is None and any(d.dst == P2A for d in sim.net):
+            probe_at = sim.clock.t - T
+        sim.net.clear()
+        if gone_at is None and not hub.kernel.sad:
+            gone_at = sim.clock.t - T
+    ck.count('defaults.runs')
+    ck.nontrivial(('defaults-beside-explicit', tuple(sorted(first.items())), dt))
+    det = {'first_probe_after_s': probe_at, 'kernel_sas_gone_after_s': gone_at, 'default_dpd': 60, 'first_connection_sets': first}
+    if probe_at is None or not (60 - 1e-6 <= probe_at <= 60 + 2 * dt + 1e-6):
+        ck.violation(f"connection-that-leaves-dpd-to-the-default-probed-{'never' if probe_at is None else 'early' if probe_at < 60 else 'late'}:its-neighbour-sets-its-own-timers", det, sim.case)
+    elif gone_at is None:
+        ck.violation('kernel-sas-survive-a-dead-peer-beyond-dpd-plus-retransmission-budget:connection-with-default-timers', det, sim.case)
+    else:
+        ck.count('defaults.probed_and_cleaned_up_on_the_default_schedule')
+
+
 def run_idle(ck, mons, seed, dpd, lifetime, dt):
     sc = walk.Scenario(seed, mons, dict(dpd=dpd, lifetime=lifetime), handshake=True)
     sim = sc.sim
@@ -588,6 +632,10 @@ def run(ck):
                     run_partition(ck, mk(), base + 7 * n, name, k, dpd, dt, noise=(False, True, 'forged-with-the-spis')[(k + len(name)) % 3])
                     if (k + len(name)) % 2:
                         run_partition(ck, mk(), base + 7 * n + 3, name, k, dpd, dt, noise='send-errors')
+    for i in range(15):
+        n += 1
+        if ck.mine(n):
+            run_defaults_beside_explicit_timers(ck, base + 9100 + i, i)
     # (4) idle runs
     for dpd, lifetime, dt in ((5, 20, 1.0), (60, 20, 1.0), (5, 100, 2.0), (60, 100, 2.5), (7, 20, 0.5)):
         n += 1
@@ -637,6 +685,7 @@ def verdict(ck):
     ck.floor('partition runs in which both ends chose equal SPI values', c['partition.runs_with_equal_spi_values_at_both_ends'], 20)
     ck.floor('forged cleartext datagrams carrying the SPIs of an IKE_SA whose peer is dead', c['partition.forged_cleartext_datagrams_with_the_spis'], 300)
     ck.floor('partitions that show as a local transmission error on every datagram', c['partition.runs_in_which_every_transmission_fails_locally'], 20)
+    ck.floor('connections with default timers beside a connection with its own, probed and cleaned up on the default schedule', c['defaults.probed_and_cleaned_up_on_the_default_schedule'], 10)
     ck.floor('lost-subset runs', c['lost.runs'], 300)
     ck.floor('runs with every transmission lost', c['lost.all_lost'], 50)
     ck.floor('retransmissions observed', sum(v for k, v in c.items() if k.startswith('tm.retransmission.')), 1000)
